@@ -31,6 +31,38 @@ static bool diag_has(const char* needle)
 	buf.resize((size_t) got);
 	return buf.find(needle) != std::string::npos;
 }
+// text written since `from` (an offset obtained from diag_mark) contains the needle?
+static off_t diag_mark()
+{
+	fflush(stdout);
+	std::cout.flush();
+	std::cerr.flush();
+	return lseek(1, 0, SEEK_CUR);
+}
+static bool diag_since(off_t from, const char* needle)
+{
+	off_t n = diag_mark();
+	if(n <= from)
+		return false;
+	std::string buf((size_t)(n - from), '\0');
+	ssize_t got = pread(1, &buf[0], (size_t)(n - from), from);
+	if(got <= 0)
+		return false;
+	buf.resize((size_t) got);
+	return buf.find(needle) != std::string::npos;
+}
+// forget what was written since `from` (diagnostics of a call made by the integrand must not be taken for those of the outer call)
+static void diag_rewind(off_t from)
+{
+	if(from < 0)
+		return;
+	if(ftruncate(1, from) != 0) {}
+	lseek(1, from, SEEK_SET);
+}
+struct Abandon   // thrown by an integrand to abandon the running integration
+{
+};
+static bool same_bits(double x, double y) { return (x != x && y != y) || (x == y && std::signbit(x) == std::signbit(y)); }
 static void skip_family(vh::Reader& r)
 {
 	r.word();
@@ -111,10 +143,13 @@ static void handler(vh::Reader& r, vh::Out& o)
 			std::string c = r.word();
 			double a = r.num(), b = r.num(), eps = 0, prec = 0;
 			int depth = 0;
-			if(c == "I")
+			long abandon_at = 0;
+			if(c == "I" || c == "X")
 			{
 				eps	  = eps_tok();
 				depth = (int) r.integer();
+				if(c == "X")
+					abandon_at = r.integer();
 			}
 			else if(c == "D")
 				eps = eps_tok();
@@ -130,11 +165,30 @@ static void handler(vh::Reader& r, vh::Out& o)
 			std::vector<double> trace;
 			auto g = [&](double x) {
 				trace.push_back(x);
+				if(abandon_at > 0 && (long) trace.size() >= abandon_at)
+					throw Abandon();
 				return f(x);
 			};
 			diag_reset();
 			double v;
-			if(c == "I")
+			if(c == "X")
+			{
+				// the integrand abandons the integration at its abandon_at-th evaluation (exception through the library)
+				try
+				{
+					v = Integrate(g, a, b, eps, depth);
+				}
+				catch(const Abandon&)
+				{
+					o.f(std::nan(""));
+					o.i(0);
+					o.i((long) trace.size());
+					o.f(INFINITY);
+					o.f(-INFINITY);
+					continue;
+				}
+			}
+			else if(c == "I")
 				v = Integrate(g, a, b, eps, depth);
 			else if(c == "D")
 				v = Integrate(g, a, b, eps);
@@ -156,6 +210,137 @@ static void handler(vh::Reader& r, vh::Out& o)
 			}
 			o.f(lo);
 			o.f(hi);
+		}
+	}
+	else if(op == "nest")
+	{
+		// re-entrant integrand (grammar: ocaml/C03_driver.ml): F(x) = E(x, J(x)), J(x) = value of a call of the library made
+		// by the integrand itself with integrand t -> g(x,t) and limits lo(x), hi(x)
+		std::string ok = r.word();
+		double a = r.num(), b = r.num(), eps = 0;
+		int depth = 20;
+		if(ok == "I" || ok == "D")
+			eps = r.num();
+		if(ok == "I")
+			depth = (int) r.integer();
+		std::string ik = r.word();
+		double ieps = 0;
+		int idepth = 20;
+		if(ik == "I" || ik == "D" || ik == "F")
+			ieps = r.num();
+		if(ik == "I")
+			idepth = (int) r.integer();
+		if((ok != "I" && ok != "D" && ok != "M") || (ik != "I" && ik != "D" && ik != "M" && ik != "F"))
+		{
+			o.w("HARNESSERR unknown_call");
+			return;
+		}
+		skip_family(r);
+		auto lo = vh::parse_fexpr(r), hi = vh::parse_fexpr(r), g = vh::parse_fexpr(r), E = vh::parse_fexpr(r);
+		struct Inner
+		{
+			double value;
+			long count, outside;
+			bool warn;
+		};
+		auto F = [&](double x, Inner& st) {
+			double v[3] = {x, 0, 0};
+			double l = vh::eval_fexpr(*lo, v), h = vh::eval_fexpr(*hi, v);
+			double mn = std::min(l, h), mx = std::max(l, h);
+			st.count = st.outside = 0;
+			const vh::FExpr* gp = g.get();
+			std::function<double(double)> gi = [&st, gp, x, mn, mx](double t) {
+				st.count++;
+				if(!(t >= mn && t <= mx))
+					st.outside++;
+				double w[3] = {x, t, 0};
+				return vh::eval_fexpr(*gp, w);
+			};
+			off_t mark = diag_mark();
+			double J;
+			if(ik == "I")
+				J = Integrate(gi, l, h, ieps, idepth);
+			else if(ik == "D")
+				J = Integrate(gi, l, h, ieps);
+			else if(ik == "M")
+				J = Integrate(gi, l, h, "Adaptive-Simpson");
+			else
+				J = Find_Epsilon(gi, l, h, ieps);
+			st.warn = diag_since(mark, "did not converge");
+			diag_rewind(mark);
+			double w[3] = {x, J, 0};
+			st.value = vh::eval_fexpr(*E, w);
+			return st.value;
+		};
+		// evaluation budget: well above the bound of the property, so that a runaway recursion ends as a reported count
+		long dn		= depth > 0 ? depth : 0;
+		long budget = (1L << (dn + 2)) + 1 + 3 + 256;
+		std::vector<double> trace;
+		std::vector<Inner> inner;
+		auto G = [&](double x) {
+			if((long) trace.size() >= budget)
+				throw Abandon();
+			trace.push_back(x);
+			Inner st;
+			double v = F(x, st);
+			inner.push_back(st);
+			return v;
+		};
+		diag_reset();
+		double v;
+		bool warn = false;
+		try
+		{
+			if(ok == "I")
+				v = Integrate(G, a, b, eps, depth);
+			else if(ok == "D")
+				v = Integrate(G, a, b, eps);
+			else
+				v = Integrate(G, a, b, "Adaptive-Simpson");
+			warn = diag_has("did not converge");
+		}
+		catch(const Abandon&)
+		{
+			v = std::nan("");
+		}
+		long itot = 0, imax = 0, iwarn = 0, iout = 0, imis = 0;
+		double xmis = 0.0;
+		for(const Inner& st : inner)
+		{
+			itot += st.count;
+			imax = std::max(imax, st.count);
+			iwarn += st.warn ? 1 : 0;
+			iout += st.outside;
+		}
+		// every answer the integrand obtained from the library while the outer call was running, against the answer to
+		// the same request made alone (no integration in progress)
+		for(size_t k = 0; k < inner.size(); k++)
+		{
+			Inner st;
+			F(trace[k], st);
+			if(!same_bits(st.value, inner[k].value) || st.count != inner[k].count || st.warn != inner[k].warn)
+			{
+				if(imis == 0)
+					xmis = trace[k];
+				imis++;
+			}
+		}
+		o.f(v);
+		o.i(warn ? 1 : 0);
+		o.i((long) trace.size());
+		o.i(itot);
+		o.i(imax);
+		o.i(iwarn);
+		o.i(iout);
+		o.i(imis);
+		o.f(xmis);
+		if(trace.size() <= TRACE_CAP)
+			for(double x : trace)
+				o.f(x);
+		else
+		{
+			o.f(*std::min_element(trace.begin(), trace.end()));
+			o.f(*std::max_element(trace.begin(), trace.end()));
 		}
 	}
 	else
